@@ -105,3 +105,16 @@ CHECKS["C19"] = {
     "assumptions": ["range inputs are characterised from the element side: the n elements exist without overflow and stop lies within one step beyond the last"],
     "outside": ["range results longer than 8 elements", "non-function entries of the package tables", "package table obligations are closed: decided by evaluation, not by the solver"],
 }
+
+CHECKS["C10"] = {
+    "corpus": True,
+    "runs": [R("./vm", {"fn": r"^ZZ_C10_"})],
+    "expect_asserts": [r"C10\.slice-read/int64/addressed-element", r"C10\.slice-slice/b:e:c/shares-storage", r"C10\.slice-write/int64/append-at-len", r"C10\.map-write/unhashable-key-is-error", r"C10\.string-write/in-range", r"C10\.typed-slice/store-converts-as-go", r"C10\.struct/unknown-field-read-is-error"],
+    "bounds": {"slices": "len 0..3, cap len..len+1, symbolic int64 elements", "indices and bounds": "arbitrary int64 / float64 / int32 / bool and non-numeric classes (no bound on the value)",
+               "maps": "0..3 entries over a key pool incl. nil and an unhashable key", "strings": "symbolic ASCII, length 0..3", "typed containers": "[]int64 with values of 6 classes; struct{A int64; B string; C []interface{}}",
+               "histories": "single operations (step lemma) plus slice-then-append through two aliased variables"},
+    "stubs": [],
+    "assumptions": ["anko accepts numeral strings, booleans and fractional floats as indices; for those only 'in range after conversion => that element, else error' is asserted",
+                    "reslicing into len < e <= cap is refused by anko (stricter than Go): that band is not compared"],
+    "outside": ["multi-byte strings", "containers longer than 3", "struct field types beyond int64/string/slice"],
+}
